@@ -82,6 +82,31 @@ class SymDict:
         return default
 
 
+class HDict(dict):
+    """a native dict that can additionally hold symbolic keys (association list `sym`, insertion order)"""
+
+    def __init__(self, *a, **kw):
+        dict.__init__(self, *a, **kw)
+        self.sym = []
+
+    def sym_set(self, it, k, v):
+        ctx = it.ctx
+        for kv in self.sym:
+            if ctx.decide(val_eq(kv[0], k)):
+                kv[1] = v
+                return
+        for ck in list(dict.keys(self)):
+            e = val_eq(ck, k)
+            if e is not False and ctx.decide(e):
+                dict.__setitem__(self, ck, v)
+                return
+        it.note_write(self, None, "dict")
+        self.sym.append([k, v])
+
+    def total(self):
+        return dict.__len__(self) + len(self.sym)
+
+
 class Handle:
     """open file object"""
 
@@ -164,7 +189,10 @@ def model_print(it, *args, sep=' ', end='\n', file=None, flush=False):
     else:
         raise Unsupported("print to unknown file")
     parts = [ops.to_str(ctx, a) for a in args]
-    text = ops.str_join(ctx, sep, parts) if parts else ''
+    if len(parts) == 1:
+        text = parts[0]            # keep the value itself (e.g. the text of a dumped document)
+    else:
+        text = ops.str_join(ctx, sep, parts) if parts else ''
     if chan == 'stdout' and getattr(ctx, 'stdout_faults', False):
         if ctx.decide(ctx.fresh('oserror_print', 'bool')):
             ctx.emit('stdout', ('fail',))
@@ -420,7 +448,7 @@ def b_tuple(it, x=None):
 
 
 def b_dict(it, *args, **kw):
-    d = dict()
+    d = HDict()
     if args:
         a = args[0]
         if isinstance(a, dict):
@@ -544,6 +572,18 @@ def sort_symbolic(it, items, reverse):
     inputs (each output is an input and each input is an output: exact when the inputs are pairwise distinct,
     which callers must be able to prove).  Falls back to insertion sort by forking otherwise."""
     ctx = it.ctx
+    if all(is_str(x) for x in items) and items:
+        out = []
+        for x in items:
+            pos = len(out)
+            for k in range(len(out)):
+                if ctx.decide(ops.str_lt(ctx, x, out[k])):
+                    pos = k
+                    break
+            out.insert(pos, x)
+        if truthy(ctx, reverse):
+            out.reverse()
+        return out
     if 0 < len(items) <= 8 and all(is_intlike(x) for x in items):
         zs = [zint(x) for x in items]
         distinct = z3.Distinct(*zs) if len(zs) > 1 else z3.BoolVal(True)
@@ -1064,6 +1104,8 @@ def call_method(it, v, name, args, kwargs):
         v = ops.resolve_choice(ctx, v)
     if isinstance(v, Handle):
         return handle_method(it, v, name, args, kwargs)
+    if isinstance(v, ArgParserStub):
+        return argparser_method(it, v, name, args, kwargs)
     if isinstance(v, OpaqueVal):
         env = getattr(ctx, 'env', None)
         if env is not None and hasattr(env, 'opaque_method'):
@@ -1457,3 +1499,33 @@ def as_indexable(it, x):
         it.ctx.assume(zint(n) >= 0)
         return 0, n, (lambda j: mkstr([Opq(seq_str_at(t, j))]))
     raise Unsupported("invariant-cut loop over %s" % type(x).__name__)
+
+
+# ------------------------------------------------------------------ argparse (assumed): parser construction is a no-op,
+# parse_args() returns whatever namespace the environment supplies (arbitrary values of the declared options)
+class ArgParserStub:
+    def __init__(self, *a, **kw):
+        pass
+
+
+def m_argument_parser(it, *a, **kw):
+    return ArgParserStub()
+
+
+def argparser_method(it, v, name, args, kwargs):
+    if name in ('add_argument', 'set_defaults', 'add_mutually_exclusive_group'):
+        return None if name != 'add_mutually_exclusive_group' else v
+    if name == 'add_argument_group':
+        return v
+    if name == 'parse_args':
+        env = getattr(it.ctx, 'env', None)
+        if env is None or not hasattr(env, 'parse_args'):
+            raise Unsupported("parse_args without an environment model")
+        return env.parse_args(it)
+    if name == 'error':
+        raise Raised(ExcObj(SystemExit, (2,)))
+    raise Unsupported("ArgumentParser.%s" % name)
+
+
+import argparse as _argparse
+_reg(_argparse.ArgumentParser, m_argument_parser)
